@@ -45,6 +45,15 @@ RULE = (
 _made = []
 
 
+
+def _unionable(ann):
+    """typing.Optional / Union need hashable members (an Annotated with unhashable metadata is not)"""
+    try:
+        typing.Optional[ann]
+        return True
+    except TypeError:
+        return False
+
 def mk_outer(ann, mixin, idx):
     from mashumaro import DataClassDictMixin
 
@@ -86,7 +95,7 @@ def encode_points(ann, obj, is_mixin, idx):
     pts["list"] = lambda: BasicEncoder(typing.List[ann]).encode([obj])[0]
     pts["dictval"] = lambda: BasicEncoder(typing.Dict[str, ann]).encode({"k": obj})["k"]
     pts["tuple"] = lambda: BasicEncoder(typing.Tuple[ann, int]).encode((obj, 1))[0]
-    if obj is not None:
+    if obj is not None and _unionable(ann):
         pts["optional"] = lambda: BasicEncoder(typing.Optional[ann]).encode(obj)
     Om, Op = mk_outer(ann, True, idx), mk_outer(ann, False, idx)
     pts["field_mixin"] = lambda: Om(obj, 1).to_dict()["f"]
@@ -109,7 +118,7 @@ def decode_points(ann, data, is_mixin, idx):
     pts["list"] = lambda: BasicDecoder(typing.List[ann]).decode([data])[0]
     pts["dictval"] = lambda: BasicDecoder(typing.Dict[str, ann]).decode({"k": data})["k"]
     pts["tuple"] = lambda: BasicDecoder(typing.Tuple[ann, int]).decode([data, 1])[0]
-    if data is not None:
+    if data is not None and _unionable(ann):
         pts["optional"] = lambda: BasicDecoder(typing.Optional[ann]).decode(data)
     Om, Op = mk_outer(ann, True, f"{idx}d"), mk_outer(ann, False, f"{idx}d")
     pts["field_mixin"] = lambda: Om.from_dict({"f": data, "g": 1}).f
@@ -205,7 +214,7 @@ def run_cases(ctx, cases):
             from mashumaro.codecs.basic import BasicDecoder, BasicEncoder
 
             try:
-                BasicEncoder(typing.List[typing.Optional[ann]])
+                BasicEncoder(typing.List[typing.Optional[ann]] if _unionable(ann) else typing.List[ann])
                 BasicDecoder(typing.Dict[str, typing.List[ann]])
                 if is_mixin:
                     sub = type(f"Sub15_{uid}", (ann,), {"__annotations__": {"zz": int}, "zz": 0})
